@@ -110,3 +110,12 @@ Theorem C19_odd_closed_form : forall x, numeric x ->
                 * Qabs (inject_Z (2 * Qceiling ((Qabs (qv x) - 1) / 2) + 1)))%Q.
 Proof. exact odd_closed. Qed.
 Print Assumptions C19_odd_closed_form.
+(* ... and ODD as a bracket, like EVEN: |r| is an odd integer, |x| <= |r| < |x| + 2,
+   with the sign of x (ODD(0) = 1)  — Proofs/C19Bracket.v *)
+Theorem C19_odd : forall x, numeric x ->
+  exists r k, excellib.f_odd x = Ok r
+    /\ (Qabs (qv r) == inject_Z (2 * k + 1))%Q /\ (Qabs (qv x) <= Qabs (qv r))%Q
+    /\ (Qabs (qv r) < Qabs (qv x) + 2)%Q
+    /\ ((qv x < 0)%Q -> (qv r < 0)%Q) /\ ((0 <= qv x)%Q -> (0 < qv r)%Q).
+Proof. exact odd_bracket. Qed.
+Print Assumptions C19_odd.
